@@ -67,22 +67,16 @@ type Options struct {
 	Ranges      []int     `json:"ranges"`  // nil or {range1min, range1max, range2min, range2max}
 }
 
-// Reading fixes the points that statement and documentation leave open
+// Reading fixes the point that statement and documentation leave open
 type Reading struct {
 	// RmGapsStrict: --rm-gaps removes every column that holds something else than A,C,G,T (the doc
 	// comment of selectedSites: "sites that contain only nucleotides and no gaps"); otherwise only
 	// the columns that hold a gap (flag help: "positions containing >=1 gaps")
 	RmGapsStrict bool
-	// PiAllCells: base frequencies are normalised by the weight of all cells of the selected columns
-	// (gap cells included); otherwise by the weight of the nucleotide cells
-	PiAllCells bool
-	// InternalKeepsAll: the internal-gap counting mode looks at all columns even under --rm-gaps
-	// (see props/c07/FINDINGS.md); otherwise --rm-gaps applies to it as to the two other modes
-	InternalKeepsAll bool
 }
 
 func (r Reading) String() string {
-	return fmt.Sprintf("{rm-gaps drops ambiguity columns:%v pi over all cells:%v internal mode ignores rm-gaps:%v}", r.RmGapsStrict, r.PiAllCells, r.InternalKeepsAll)
+	return fmt.Sprintf("{rm-gaps drops ambiguity columns:%v}", r.RmGapsStrict)
 }
 
 // ---- residues ---------------------------------------------------------------------------------
@@ -168,7 +162,7 @@ func Selected(rows []string, rmgaps bool, strict bool) []bool {
 }
 
 // CountPair counts differences and comparable sites of rows a and b
-func CountPair(a, b string, sel []bool, w []float64, gapmut int, rmamb bool, internalKeepsAll bool) Counts {
+func CountPair(a, b string, sel []bool, w []float64, gapmut int, rmamb bool) Counts {
 	var c Counts
 	lo, hi := 0, len(a)-1
 	if gapmut == GapInternal {
@@ -182,13 +176,13 @@ func CountPair(a, b string, sel []bool, w []float64, gapmut int, rmamb bool, int
 		}
 	}
 	for i := lo; i <= hi; i++ {
-		if !sel[i] && !(gapmut == GapInternal && internalKeepsAll) {
+		if !sel[i] {
 			continue
 		}
 		x, y := Set(a[i]), Set(b[i])
 		wi := weight(w, i)
 		// transition / transversion counter: residues on both sides
-		if x != 0 && y != 0 && sel[i] {
+		if x != 0 && y != 0 {
 			c.MTot += wi
 			pur, pyr := uint8(bA|bG), uint8(bC|bT)
 			switch {
@@ -247,9 +241,10 @@ func minInt(a, b int) int {
 	return b
 }
 
-// Pi returns the base frequencies (A,C,G,T) of the selected columns; an ambiguity code shares its
-// weight equally among the bases it stands for
-func Pi(rows []string, sel []bool, w []float64, allCells bool) [4]float64 {
+// Pi returns the base frequencies (A,C,G,T) of the selected columns, normalised over the nucleotide
+// cells (they sum to 1; gap cells do not count); an ambiguity code shares its weight equally among the
+// bases it stands for
+func Pi(rows []string, sel []bool, w []float64) [4]float64 {
 	var pi [4]float64
 	tot := 0.0
 	for _, r := range rows {
@@ -267,7 +262,7 @@ func Pi(rows []string, sel []bool, w []float64, allCells bool) [4]float64 {
 					}
 				}
 			}
-			if s != 0 || allCells {
+			if s != 0 {
 				tot += wj
 			}
 		}
@@ -459,7 +454,7 @@ func Reference(rows []string, opt Options, rd Reading) *Ref {
 	}
 	sel := Selected(rows, opt.RmGaps, rd.RmGapsStrict)
 	if UsesPi(opt.Model) {
-		r.Pi = Pi(rows, sel, opt.Weights, rd.PiAllCells)
+		r.Pi = Pi(rows, sel, opt.Weights)
 	}
 	for i := 0; i < n; i++ {
 		for j := i + 1; j < n; j++ {
@@ -467,7 +462,7 @@ func Reference(rows []string, opt Options, rd Reading) *Ref {
 			if !Computed(opt.Ranges, i, j) {
 				e = Entry{Kind: Outside}
 			} else {
-				c := CountPair(rows[i], rows[j], sel, opt.Weights, gapmut, rmamb, rd.InternalKeepsAll)
+				c := CountPair(rows[i], rows[j], sel, opt.Weights, gapmut, rmamb)
 				e = Estimate(opt, c, r.Pi)
 				switch e.Kind {
 				case Defined:
@@ -497,37 +492,10 @@ func Reference(rows []string, opt Options, rd Reading) *Ref {
 
 // Readings returns the readings that can give different matrices for these rows and options (the
 // first one is always present)
-func Readings(rows []string, opt Options, internalKeepsAll []bool) []Reading {
-	hasGap, hasAmb := false, false
-	for _, r := range rows {
-		for i := 0; i < len(r); i++ {
-			s := Set(r[i])
-			if s == 0 {
-				hasGap = true
-			} else if card(s) > 1 {
-				hasAmb = true
-			}
-		}
-	}
-	strict := []bool{true}
+func Readings(rows []string, opt Options) []Reading {
+	_, hasAmb := Describe(rows)
 	if opt.RmGaps && hasAmb {
-		strict = []bool{true, false}
+		return []Reading{{RmGapsStrict: true}, {RmGapsStrict: false}}
 	}
-	all := []bool{true}
-	if UsesPi(opt.Model) && hasGap {
-		all = []bool{true, false}
-	}
-	keep := []bool{false}
-	if opt.RmGaps && (opt.Model == Raw || opt.Model == PDist) && opt.GapMut == GapInternal && (hasGap || hasAmb) {
-		keep = internalKeepsAll
-	}
-	var out []Reading
-	for _, k := range keep {
-		for _, s := range strict {
-			for _, a := range all {
-				out = append(out, Reading{RmGapsStrict: s, PiAllCells: a, InternalKeepsAll: k})
-			}
-		}
-	}
-	return out
+	return []Reading{{RmGapsStrict: true}}
 }
